@@ -4,16 +4,36 @@ import json, os, subprocess, sys
 V = os.path.dirname(os.path.dirname(os.path.abspath(__file__)))
 TB = "Trusted base: vf/sim.py (datasheet-derived nRF24L01+ model incl. Enhanced ShockBurst, shared air, SPI fronts, virtual time; self-tested by setup_cmd) and the reference model named in the evidence; CPython 3.12; bounds as stated in the evidence file."
 CHECKS = {
- "C01": ("model_checking", "6 C01", "exhaustive enumeration (E-ENUM) of configurations x payload lengths x buffer types x call forms and of all short payload lists, executing the real RF24 objects on two simulated radios",
-         "Every (length mode, payload length 0..40, buffer type, call form) and every pipe/width/rate/CRC/ack/channel/front combination at 3 lengths is executed on the real driver pair and compared with the datasheet-derived expectation; all payload lists up to depth 3."),
- "C07": ("model_checking", "6 C07", "explicit-state BFS (depth 2 quick / 3 thorough) over public network/mesh calls x environment answers on deep-copied simulated worlds; post-condition read from the simulated hardware",
+ "C01": ("model_checking", "6 C01 / 9", "exhaustive enumeration (E-ENUM) of configurations x payload lengths x buffer types x call forms, all short payload lists, per-pipe static length vectors and write() bursts, executing the real RF24 objects on two simulated radios",
+         "Every (length mode, payload length 0..40, buffer type, call form) and every pipe/width/rate/CRC/ack/channel/front combination at 3 lengths is executed on the real driver pair and compared with the datasheet-derived expectation; all payload lists up to depth 3; bursts of 1..5 write_only writes."),
+ "C04": ("model_checking", "6 C04 / 9", "exhaustive enumeration of the routing transition system: all 781x780 (node, destination) states, next hop observed on the simulated air for every destination from 41 nodes (thorough: all), 781 really constructed nodes' registers for the listening map",
+         "Every (node, destination) pair's next hop is identified as the unique (node, pipe) listening on the transmitted physical address and compared with an independent tree model; pipe-address injectivity over all 781x6 (node, pipe) pairs; multicast level addresses; 3 prefix/suffix sets x allow_multicast on/off."),
+ "C05": ("model_checking", "6 C05 / 9", "enumeration of (topology, src, dst, length, type, API, fragmentation, timing class) plus deviation-bounded DFS over per-delivery poll latencies, every node a real network object on its own simulated MCU in a deterministic discrete-event world",
+         "Every ordered pair of 3 topologies x 7 lengths (thorough 0..144) x timing classes is executed end to end; delivery exactly-once/intact/no bystander/return value/termination/listening post-condition judged from queues and the simulated air. One open known finding (fragmented routed contention)."),
+ "C06": ("model_checking", "6 C06 / 9", "explicit-state BFS with state dedup over fragment delivery events (next/skip/twice/swap/restart/stray/dequeue) on the real FrameQueueFrag and through a real node's update() with frames injected over the simulated air",
+         "All event sequences to depth 8 (thorough 11) over up to 3 senders with coinciding or different frame ids; every frame handed to the application must be byte-for-byte one complete sent message, at most once. One open known finding (duplicate stream re-delivered after dequeue)."),
+ "C07": ("model_checking", "6 C07 / 9", "explicit-state BFS (depth 2 quick / 3 thorough) over public network/mesh calls x environment answers on deep-copied simulated worlds; post-condition read from the simulated hardware",
          "From 10 initial node configurations every sequence of API calls / injected frames x (next hop acks or not, NETWORK_ACK / lookup reply injected or not) up to the depth bound is executed on the real node object; after every call the radio must be powered, in RX, CE high, all six pipes on the node's reference addresses, EN_AA=0x3E, DYNPD=0x3F."),
- "C13": ("fault_enumeration", "6 C13", "stateless choice-replay DFS: every single (thorough: pair of) lost frame hop(s) on routes of 1..8 hops, all 256 types on a 2-hop route, in a deterministic multi-node discrete-event world",
+ "C08": ("model_checking", "6 C08 / 9", "explicit-state BFS with canonical-state dedup over open/close pipe, open_tx_pipe, auto-ack and listen calls per address width; register oracle plus behavioural probes (ghost sender / ghost listener) on deep copies; CE/SPI log",
+         "All call sequences to depth 6 (thorough: until the state space closes) are executed on the real driver; RX clause at every listen=True, TX clause after every open_tx_pipe in TX mode, CE clause from the pin log."),
+ "C11": ("model_checking", "6 C11 / 9", "exhaustive enumeration of the header field domains (all 12-bit addresses, all ids, all type x reserved pairs) against an explicit little-endian reference codec, and of every message length 0..144 written by a real node to an acknowledging ghost, compared frame by frame with a reference fragment encoder / TMRh20-style reassembler",
+         "pack/unpack byte layout, refusal of short buffers, on-air frame sequence, frame-id sharing, counters, last-fragment convention and restoration of the caller's header are checked on the complete enumerated domain."),
+ "C12": ("model_checking", "6 C12 / 9", "explicit-state BFS vs a reference bounded duplicate-free FIFO over enqueue (fresh/duplicate/alternative/mutated/reused frames), dequeue, peek, len, max_queue_size and fragmentation toggles on the real queue classes and through a real node",
+         "All operation sequences to depth 7 (thorough 9); return values and complete queue contents compared with the reference after every step."),
+ "C13": ("fault_enumeration", "6 C13 / 9", "stateless choice-replay DFS: every single (thorough: pair/triple of) lost frame hop(s) on routes of 1..8 hops, all 256 types on a 2-hop route, cross traffic through a waiting origin, in a deterministic multi-node discrete-event world",
          "Every failure point of every frame hop (message and NETWORK_ACK relays) is enumerated; NETWORK_ACK origination count/originator/addressee, write()'s return value against the ground-truth arrival time, and the blocking bound are checked on every execution."),
- "C14": ("model_checking", "6 C14", "exhaustive enumeration of sender class x level x relay configuration x allow_multicast x length x timing class in a 9-node discrete-event world; reference propagation model",
-         "All combinations are executed with real nodes; receivers, levels, relays' re-broadcasts, absence of hardware ACKs / ACK requests and pipe-0 registers are compared with a reference propagation model."),
- "C17": ("model_checking", "6 C17", "schedule enumeration (join order x pairwise-distinct start offsets x timing classes) of real mesh nodes joining a real master in a deterministic discrete-event world, plus every single lost frame of small joins",
-         "Every enumerated schedule is executed to completion; join results, master table, lookups (known/trivial/unknown), send-to-id, release and re-join are checked against the documented values; with one lost frame only no-exception/termination/valid-or-None."),
+ "C14": ("model_checking", "6 C14 / 9", "exhaustive enumeration of sender class x level x relay configuration x allow_multicast x length x timing class x pre-history in a 9-node discrete-event world; reference propagation model",
+         "All combinations are executed with real nodes; receivers, levels, relays' re-broadcasts, absence of hardware ACKs / ACK requests and pipe-0 registers are compared with a reference propagation model; 11 pre-histories (unicast traffic, re-addressing, earlier same-type frames)."),
+ "C15": ("model_checking", "6 C15 / 9", "exhaustive enumeration of injected frames (256 types x lengths x destination classes x origin classes x environment) over 22 (role, level) nodes, frame pairs, raw short payloads, and the validity predicate over all 65 536 values, each on a deep copy of a real node with ghost radios",
+         "update() must return normally in bounded virtual time for every frame; invalid/short frames must leave queue and air untouched; is_address_valid equals an independent predicate on every 16-bit value."),
+ "C16": ("model_checking", "6 C16 / 9", "explicit-state BFS with dedup on the lease table over request (direct / via relays) / re-request / release / save+load events on a real RF24Mesh master with ghost requesters; persistence enumerated for every table size 0..255",
+         "All event sequences to depth 5 (thorough 7) from 4 starting tables; every MESH_ADDR_RESPONSE on the simulated air and the table after every event are checked against the lease constraints."),
+ "C17": ("model_checking", "6 C17 / 9", "schedule enumeration (join order x pairwise-distinct start offsets x timing classes) of real mesh nodes joining a real master in a deterministic discrete-event world, plus every single lost frame of small joins",
+         "Every enumerated schedule is executed to completion; join results, master table, lookups (known/trivial/unknown), send-to-id, renew while connected, release and re-join are checked against the documented values; with one lost frame only no-exception/termination/valid-or-None."),
+ "C18": ("model_checking", "6 C18 / 9", "exhaustive enumeration of names x PA field x chunk splits around the capacity boundary x channels, plus explicit-state BFS over hop_channel / channel= / with-block histories; oracle = independent bit-serial BLE link-layer decoder applied to what reached the simulated radio",
+         "Every produced payload is de-whitened for the channel the radio was tuned to at transmission and must be a correct ADV_NONCONN_IND PDU with correct CRC-24; len_available and the ValueError boundary are exact."),
+ "C19": ("model_checking", "6 C19 / 9", "exhaustive enumeration over the simulated air of service-data domains, all 1-bit and (PDU-region / thorough: all) 2-bit corruptions, adversarial CRC-valid AD structures and queue interleavings, against an independent BLE encoder/decoder",
+         "Queued iff the reference accepts; decoded fields equal what was advertised; available() never raises; read() is FIFO, once each."),
 }
 NA = {}
 def main():
